@@ -200,6 +200,7 @@ class Interp:
         m = getattr(self, 'x_' + s.__class__.__name__, None)
         if m is None:
             raise OutOfSubset('statement %s (line %d)' % (s.__class__.__name__, s.lineno))
+        self.ctx.where = (self.fr.fn_name, s.lineno)
         return m(s)
 
     def x_Pass(self, s): pass
